@@ -585,6 +585,7 @@ def _small_polymer(rnd, cfg):
     if kind == "archetype":
         c = dict(cfg)
         c["branchy"] = True
+        c["allow_illposed"] = False
         text, tags = gen_molecule(rnd, c)
         return text, tags
     u = rnd.choice(UNITS2)[0]
@@ -603,10 +604,10 @@ def _small_polymer(rnd, cfg):
             + rnd.choice(PLAIN_SUFFIX)), {"arch:sys_two_block", "family:" + f, "family:" + f2}
 
 
-def _deterministic_polymer(rnd):
+def _deterministic_polymer(rnd, max_units=40):
     """chain whose molecular mass is the same in every generation (zero-width law): composition is then exact"""
     u = rnd.choice(UNITS2)[0]
-    n = rnd.choice([1, 2, 4, 8, 20, 40])
+    n = rnd.choice([k for k in (1, 2, 4, 8, 20, 40) if k <= max_units])
     m = unit_mass(u)
     target = m * (n - 0.5)
     return "C{[>]" + u.format("[<]", "[>]") + "[<]}|gauss(%r, 0)|C" % round(target, 4), {"arch:sys_deterministic_chain"}
@@ -622,7 +623,7 @@ def gen_system(rnd, cfg=None, deterministic_mass=False, min_components=1):
         if rnd.random() < (0.5 if n > 1 else 0.15):
             comps.append((rnd.choice(SOLVENTS), {"arch:sys_solvent"}))
         elif deterministic_mass:
-            comps.append(_deterministic_polymer(rnd))
+            comps.append(_deterministic_polymer(rnd, cfg.get("max_units", 40)))
         else:
             comps.append(_small_polymer(rnd, cfg))
     for _, t in comps:
